@@ -1394,6 +1394,11 @@ pub fn twin_program(seed: u64, len: usize, rx: usize) -> Vec<Step> {
                 // the program's broker traffic is fixed; forget the flow bookkeeping
                 d.broker.out_q1.clear();
                 d.broker.out_q2_pub.clear();
+                // now and then a two-byte packet right in front of it (an unsolicited PINGRESP is
+                // ignored): fragmentation then cuts inside the shortest packet there is
+                if d.chance(0.35) {
+                    out.push(Step::B { bytes: vec![0xD0, 0x00] });
+                }
                 out.push(Step::B { bytes: pkt });
                 out.push(Step::Poll {});
                 continue;
